@@ -56,11 +56,18 @@ impl C11 {
         let (names, max_depth): (Vec<&str>, usize) = match (tier, variant) {
             (Tier::Quick, _) => (vec!["a", "b", "p::a"], 2),
             (Tier::Thorough, 0) => (vec!["a", "b", "p::a"], 3),
+            (Tier::Thorough, 2) => (vec!["a", "b", "p::a"], 2),
             (Tier::Thorough, _) => (vec!["a", "ab", "p::a", "p"], 2),
         };
         let names: Vec<String> = names.into_iter().map(String::from).collect();
-        let values: Vec<String> = vec!["1".into(), "x y".into()];
+        // the empty text is a value like any other (defined, not undefined); the value with a space goes
+        // through the parser in `b = set "x y"` only, to keep the state space small
+        let values: Vec<String> = match (tier, variant) {
+            (Tier::Thorough, 2) => vec!["1".into(), "".into(), "x y".into()],
+            _ => vec!["1".into(), "".into()],
+        };
         let mut ops = vec![];
+        ops.push(Op::Set(names[1].clone(), "x y".into()));
         for n in &names {
             for v in &values {
                 ops.push(Op::Set(n.clone(), v.clone()));
@@ -386,15 +393,15 @@ impl Sys for C11 {
 
 pub fn bounds(tier: Tier) -> Value {
     match tier {
-        Tier::Quick => json!({"names": ["a", "b", "p::a"], "values": ["1", "x y"], "stack_depth": 2}),
-        Tier::Thorough => json!({"run1": {"names": ["a", "b", "p::a"], "stack_depth": 3}, "run2": {"names": ["a", "ab", "p::a", "p"], "stack_depth": 2}, "values": ["1", "x y"]}),
+        Tier::Quick => json!({"names": ["a", "b", "p::a"], "values": ["1", "", "x y (only b = set)"], "stack_depth": 2}),
+        Tier::Thorough => json!({"run1": {"names": ["a", "b", "p::a"], "stack_depth": 3}, "run2": {"names": ["a", "ab", "p::a", "p"], "stack_depth": 2}, "run3": {"names": ["a", "b", "p::a"], "values": ["1", "", "x y"], "stack_depth": 2}, "values": ["1", "", "x y (only b = set)"]}),
     }
 }
 
 pub fn run(tier: Tier, totals: &mut Totals) {
     let variants: &[u8] = match tier {
         Tier::Quick => &[0],
-        Tier::Thorough => &[0, 1],
+        Tier::Thorough => &[0, 1, 2],
     };
     let mut levels = vec![];
     for v in variants {
@@ -420,7 +427,7 @@ pub fn replay(case: &Value) -> Result<String, String> {
         .iter()
         .map(|v| v.as_str().unwrap_or("").to_string())
         .collect();
-    for variant in [0u8, 1u8] {
+    for variant in [0u8, 1u8, 2u8] {
         let sys = C11::new(Tier::Thorough, variant);
         let mut s = sys.new_impl();
         let mut m = sys.init_model();
@@ -456,6 +463,6 @@ pub fn replay(case: &Value) -> Result<String, String> {
 }
 
 pub const RULE: &str = "explicit-state breadth-first search from the empty context: every operation of the alphabet (set via a one-line script; set_by_name with/without value, get_by_name, is_defined, unset with 1-2 names, get_all_var_names, unset_all_vars plain and --prefix, clear_scope, scope_push_stack / scope_pop_stack without --copy and with every --copy list of 0..2 names) is applied to every reachable state; pushes are disabled at the stack-depth bound so the space is finite and searched to a fixpoint. Each transition runs the real command, compares its output, the complete variable map, the saved maps inside the scope stack and the handle table with the model (map + stack of maps). States are de-duplicated on the implementation's own state (variables and the whole state map). evaluations = transitions; distinct_nontrivial = distinct states";
-pub const ASSUMPTIONS: &[&str] = &["names from {a,b,p::a} (thorough also {a,ab,p::a,p}), values from {1,'x y'}", "for a name that is undefined when copied on pop the model follows the implementation between 'restored' and 'undefined'", "operations other than `name = set value` are run through run_instruction (outputs observed directly, no output variable)"];
+pub const ASSUMPTIONS: &[&str] = &["names from {a,b,p::a} (thorough also {a,ab,p::a,p}), values from {1, empty, 'x y'}", "for a name that is undefined when copied on pop the model follows the implementation between 'restored' and 'undefined'", "operations other than `name = set value` are run through run_instruction (outputs observed directly, no output variable)"];
 pub const EXHAUSTIVE: bool = true;
 pub const WALL_CAP_S: (u64, u64) = (50, 1500);
